@@ -54,7 +54,7 @@ def s_grammars(tier):
             {"mode": "direct", "tkw": {"autoescape": None}},
             {"mode": "direct", "tkw": {"autoescape": "esc2", "whitespace": "single"}}]
     if tier == "quick":
-        heads = T.std_heads(elifs=("n",), excepts=("", "KeyError"), try_full=True)
+        heads = T.std_heads(elifs=("n",), excepts=("", "KeyError"), seqs=("xs",), try_full=True)
         out = [(T.Grammar(leaves, loop_leaves, heads, 2), 4, cfg1),
                (T.Grammar(leaves2, [], heads2, 2), 3, cfg2)]
     else:
